@@ -913,6 +913,7 @@ def _async_worker(
                     ]
                 ):
                     observation, info = env.reset()
+                    transition = observation, reward, terminated, truncated, info
                 observation, reward, terminated, truncated, info = process_transition(
                     transition,
                     observation_space,
